@@ -39,7 +39,21 @@ let vrdiagram (d : UmlBlob.rdiagram) =
      L (List.map (fun (_, a) -> vrassoc a) d.UmlBlob.rd_assocs);
      L (List.map (fun (_, (i : UmlBlob.rinh)) -> L [S i.UmlBlob.ri_id; vbool i.UmlBlob.ri_real; S i.UmlBlob.ri_from; S i.UmlBlob.ri_from_id; S i.UmlBlob.ri_to; S i.UmlBlob.ri_to_id]) d.UmlBlob.rd_inhs)]
 
+(* structured blobs: item = ["F" ws k v] | ["R" ws k o sep c [ids]] | ["C" ws k o sep c [nodes]] | ["W" s] | ["I" s]; node = [id optname type [items] tail] *)
+let oname v = match lst v with [] -> None | [x] -> Some (str x) | _ -> failwith "option"
+let rec wnode v = match lst v with
+  | [i; n; t; its; tl] -> UmlWriter.WNode (str i, oname n, str t, List.map witem (lst its), str tl)
+  | _ -> failwith "wnode"
+and witem v = match lst v with
+  | [k; ws; key; value] when str k = "F" -> UmlWriter.IField (str ws, str key, str value)
+  | [k; ws; key; o; sep; c; ids] when str k = "R" -> UmlWriter.IRefs (str ws, str key, str o, str sep, str c, strs ids)
+  | [k; ws; key; o; sep; c; ns] when str k = "C" -> UmlWriter.IChildren (str ws, str key, str o, str sep, str c, List.map wnode (lst ns))
+  | [k; s] when str k = "W" -> UmlWriter.IRaw (str s)
+  | [k; s] when str k = "I" -> UmlWriter.IInert (str s)
+  | _ -> failwith "witem"
+
 let () =
+  register "ub_print_node" (function [n] -> S (UmlWriter.print_node (wnode n)) | _ -> failwith "arity");
   register "ub_parse" (function [s] -> (match UmlBlob.parse_blob (str s) with None -> L [] | Some v -> L [vpv v]) | _ -> failwith "arity");
   register "ub_load" (function [d; n] ->
       (match UmlBlob.load_cdiagram (Cmds_vpp.db d) (str n) with None -> L [] | Some r -> L [vrdiagram r]) | _ -> failwith "arity");
